@@ -46,7 +46,7 @@ MINIMIZE = "schedule"
 RULE = (
     "hist: 20-80 operations over 2-4 runners (parents and children), 3-6 invocations, limits from {0.5, 5, 60} s and timeouts from {0.05, 1, 10} min; "
     "non-trivial = both scans were non-empty at least once and at least one boundary instant was visited. race: 2-4 stuck invocations, "
-    "1-2 owner actions during the recovery run; non-trivial = an owner action landed between the scan and the recovery transition of the "
+    "1-2 owner actions and 0-6 polls of a healthy third runner during the recovery run; non-trivial = an owner action landed between the scan and the recovery transition of the "
     "same invocation; distinct = hash of op sequence / switch sites."
 )
 ASSUMPTIONS = [
